@@ -863,6 +863,23 @@ func c7wrongScalar(base string, isStruct bool) *c7ex {
 	return &c7ex{k: 'b', text: "true"} // string, file, path, user file types
 }
 
+// one-dimension shifts of a type
+var c7shifts = []struct {
+	class string
+	f     func(t c7ty) (c7ty, bool)
+}{
+	{"ref_depth_outer_more", func(t c7ty) (c7ty, bool) { t.arr++; return t, true }},
+	{"ref_depth_outer_less", func(t c7ty) (c7ty, bool) { t.arr--; return t, t.arr >= 0 }},
+	{"ref_depth_in_map_more", func(t c7ty) (c7ty, bool) { t.mp++; return t, t.mp > 1 }},
+	{"ref_depth_in_map_less", func(t c7ty) (c7ty, bool) { t.mp--; return t, t.mp >= 1 }},
+	{"ref_map_for_array", func(t c7ty) (c7ty, bool) {
+		return c7ty{base: t.base, arr: t.arr - 1, mp: 1}, t.arr > 0 && t.mp == 0 && t.base != "map"
+	}},
+	{"ref_array_for_map", func(t c7ty) (c7ty, bool) {
+		return c7ty{base: t.base, arr: t.arr + t.mp}, t.mp > 0
+	}},
+}
+
 // depthSafe: wrapping / unwrapping one array level certainly changes the
 // type (null and the empty array are values of every array depth)
 func c7depthSafe(e *c7ex) bool {
@@ -1045,6 +1062,47 @@ func (g *c7gen) mutations(p *c7prog) []c7mut {
 							return false
 						}
 						*tp = &c7ex{k: 'r', text: ref}
+						return true
+					})
+				}
+			}
+			// a reference to a new pipeline input whose type differs from the
+			// parameter's in exactly one dimension (outer array depth, array
+			// depth of a typed map's values, array versus typed map): never
+			// convertible, whatever the base type
+			if s0.pl != nil {
+				for _, sh := range c7shifts {
+					sh := sh
+					st, ok := sh.f(t)
+					if !ok {
+						continue
+					}
+					mk(sh.class, true, b0.id, func(s c7site, b *c7bind) bool {
+						it := st
+						if b.e.k == 'p' {
+							if s.c == nil {
+								return false
+							}
+							lt, ok := c7lift(st, s.c.mode)
+							if !ok {
+								return false
+							}
+							it = lt
+						} else if c7usesSelf(b.e) {
+							return false
+						}
+						name := "i_shift"
+						s.pl.ins = append(s.pl.ins, c7field{name, it})
+						ref := &c7ex{k: 'r', text: "self." + name}
+						if b.e.k == 'p' {
+							if c7usesSelf(b.e.inner) {
+								return false
+							}
+							b.e.inner = ref
+						} else {
+							b.e = ref
+						}
+						g.bindNewInput(s.pl.name, name, &c7ex{k: 'n', text: "null"}, s)
 						return true
 					})
 				}
